@@ -58,7 +58,7 @@ func (r HTTPDIDResolver) Resolve(ctx context.Context, did *w3c.DID) (out DIDDocu
 		}
 	}()
 
-	err = json.NewDecoder(resp.Body).Decode(&res)
+	err = json.NewDecoder(resp.Body).Decode(res)
 	if err != nil {
 		return out, err
 	}
